@@ -254,6 +254,7 @@ def evaluate(ctx, results, tag):
       ts = [step_term(r, t) for t in range(len(r["steps"]))]
     except ValueError as e:          # NaN / inf has no dyadic form
       r["exc"] = "non-finite value in update or state from finite gradients (%s)" % e
+      r["nonfinite"] = True
       continue
     for t, tm in enumerate(ts):
       terms.append(tm)
@@ -265,12 +266,38 @@ def evaluate(ctx, results, tag):
   return results
 
 
-def slim(case):
-  return case
+def _finite(x):
+  return x == x and x not in (float("inf"), float("-inf"))
+
+
+def matches_d16(r):
+  """Predicate of finding C15-D16 (see proposed_findings / known_findings): Sketchy, epsilon = 0,
+  and at the first step with a non-finite value some retained direction has inv_eigvals = inf
+  although eigvals > 0, because float32(eigvals)^2 (+ tail = 0) underflowed to zero."""
+  c = r["case"]["cfg"]
+  if c["so"] != "sketchy" or c["seps"] != 0.0 or not r.get("nonfinite"):
+    return False
+  for t, st in enumerate(r["steps"]):
+    post = r["states"][t + 1]
+    vals = [v for lf in st["leaves"].values() for v in lf["update"]]
+    bad_axes = False
+    for lf in post["leaves"].values():
+      so = lf["so"]
+      if not so or "axes" not in so:
+        continue
+      for a in so["axes"]:
+        vals += a["inv"] + a["e"] + [a["tail"], a["inv_tail"]]
+        for e, i in zip(a["e"], a["inv"]):
+          if i == float("inf") and e > 0 and e * e < 2.0 ** -126 and a["tail"] == 0.0:
+            bad_axes = True
+    if not all(_finite(v) for v in vals):
+      return bad_axes        # decided at the FIRST non-finite step
+  return False
 
 
 def report(ctx, results):
   seen = set()
+  known = common.load_known_findings("C15")
   nskip = 0
   nsteps = 0
   for r in results:
@@ -280,6 +307,15 @@ def report(ctx, results):
     if "exc" in r:
       ctx.case(key, False)
       ctx.count("exception")
+      d16 = [f for f in known if f.get("id") == "C15-D16" and f.get("status") == "open"]
+      if d16 and matches_d16(r):
+        ctx.count("known_finding_C15-D16")
+        if "d16" not in seen:
+          seen.add("d16")
+          ctx.known("C15-D16 tearfree Sketchy epsilon=0: squared tiny singular value underflows, "
+                    "inv_eigvals = inf, NaN update (cfg rank=%d shapes=%s seed=%d)" % (
+                        c["rank"], case["shapes"], case["seed"]))
+        continue
       sig = ("exc", r["exc"][:60])
       if sig not in seen:
         seen.add(sig)
@@ -402,6 +438,8 @@ def replay(ctx, rec):
   r = res[0]
   bad = "exc" in r
   print("exception:", r.get("exc"))
+  if r.get("nonfinite"):
+    print("matches the predicate of finding C15-D16:", matches_d16(r))
   for t, code in sorted(r.get("codes", {}).items()):
     leaf, cc = divmod(code, 100)
     print("step %s: code %d (leaf %d: %s)" % (t, code, leaf, CODES.get(cc, "ok") if code else "ok"))
